@@ -287,6 +287,27 @@ func (p *Proc) LogTail(n int) string {
 	return string(b)
 }
 
+// CrashHead returns the beginning of the Go runtime's crash report (panic or
+// fatal error) in the child's log, or its tail if there is none.
+func (p *Proc) CrashHead(n int) string {
+	b, _ := os.ReadFile(p.LogPath)
+	s := string(b)
+	idx := -1
+	for _, marker := range []string{"\npanic: ", "\nfatal error: ", "\nWARNING: DATA RACE"} {
+		if i := strings.Index(s, marker); i >= 0 && (idx < 0 || i < idx) && marker != "\nWARNING: DATA RACE" {
+			idx = i
+		}
+	}
+	if idx < 0 {
+		return p.LogTail(n)
+	}
+	s = s[idx:]
+	if len(s) > n {
+		s = s[:n]
+	}
+	return s
+}
+
 func (p *Proc) get(path string) ([]byte, int, error) {
 	resp, err := p.HTTP.Get("http://" + p.Admin + path)
 	if err != nil {
